@@ -16,6 +16,15 @@ Theorem C02_find_all_exact : forall t, WF t -> forall d,
 Proof. exact find_all_exact. Qed.
 Print Assumptions C02_find_all_exact.
 
+(* find_all(data_id=d, max_results=k) (k = 0: no limit) *)
+Theorem C02_find_all_max : forall t d k, WF t ->
+  incl (lk_find_all_did_max t d k) (nodes_with (forest_of t) d) /\
+  NoDup (lk_find_all_did_max t d k) /\
+  length (lk_find_all_did_max t d k) =
+    (if Nat.eqb k 0 then length (nodes_with (forest_of t) d) else Nat.min k (length (nodes_with (forest_of t) d))).
+Proof. exact find_all_max_exact. Qed.
+Print Assumptions C02_find_all_max.
+
 Theorem C02_find_all_live : forall t, WF t -> forall n d,
   In n (lk_find_all_did t d) <-> In n (ids (forest_of t)) /\ did_of n (forest_of t) = Some d.
 Proof. exact find_all_live. Qed.
